@@ -735,3 +735,140 @@ Section PropertyLevel.
   (* total weight reported by the iterator *)
   Definition wtotal (it : list (point * Z)) : Z := fold_right (fun pw acc => snd pw + acc) 0 it.
 End PropertyLevel.
+
+(* ---------------------------------------------------------------- *)
+(* the retained points are input points (compaction only moves or drops points); all of them have the configured dimension *)
+(* ---------------------------------------------------------------- *)
+Section Subset.
+  Variable K : point -> point -> Z.
+
+  Lemma In_upd_nth_const {A} (v : A) : forall l n x, In x (upd_nth n (fun _ => v) l) -> In x l \/ x = v.
+  Proof.
+    induction l as [|y l IH]; intros [|n] x; cbn [upd_nth In]; try tauto.
+    - intros [H|H]; auto.
+    - intros [H|H]; auto. destruct (IH n x H); auto.
+  Qed.
+
+  Lemma In_swap l i j x : (i < length l)%nat -> (j < length l)%nat -> In x (swap l i j) -> In x l.
+  Proof.
+    intros Hi Hj H. unfold swap in H.
+    apply In_upd_nth_const in H. destruct H as [H| ->]; [|now apply nth_In].
+    apply In_upd_nth_const in H. destruct H as [H| ->]; [exact H|now apply nth_In].
+  Qed.
+
+  Lemma fy_In x : forall i l e, (i <= length l)%nat -> In x (fst (fy i l e)) -> In x l.
+  Proof.
+    induction i as [|i IH]; intros l e Hi H; [exact H|].
+    destruct i as [|i']; [exact H|].
+    rewrite fy_SS in H. destruct (draw e) as [v e'].
+    set (j := Z.to_nat (v mod Z.of_nat (Datatypes.S (Datatypes.S i')))) in *.
+    assert (Hj : (j < Datatypes.S (Datatypes.S i'))%nat).
+    { unfold j. pose proof (Z.mod_pos_bound v (Z.of_nat (Datatypes.S (Datatypes.S i'))) ltac:(lia)). lia. }
+    apply IH in H; [|rewrite swap_length; lia].
+    apply In_swap in H; [exact H|lia|lia].
+  Qed.
+
+  Lemma signs_fst : forall rest done, map fst (signs K done rest) = map fst done ++ rest.
+  Proof.
+    induction rest as [|p t IH]; intros done; cbn [signs]; [now rewrite app_nil_r|].
+    rewrite IH, map_app, <- app_assoc. reflexivity.
+  Qed.
+
+  Lemma assign_fst b l : map fst (assign K b l) = l.
+  Proof. destruct l as [|p t]; [reflexivity|]. cbn [assign]. now rewrite signs_fst. Qed.
+
+  Lemma compact_one_In l e prom dr e' x : compact_one K l e = (prom, dr, e') -> In x prom -> In x l.
+  Proof.
+    unfold compact_one. destruct (draw e) as [b e1]. destruct (fy (length l) l e1) as [sh e2] eqn:Ef.
+    intros H; inversion H; subst; clear H. intros Hin.
+    apply in_map_iff in Hin. destruct Hin as ([p b'] & <- & Hf). apply filter_In in Hf. destruct Hf as [Hf _].
+    apply (in_map fst) in Hf. rewrite assign_fst in Hf. cbn [fst] in *.
+    apply (fy_In p (length l) l e1); [lia|]. now rewrite Ef.
+  Qed.
+
+  Lemma compact_ls_In k x : forall ls e ls' dr e',
+    compact_ls K k ls e = (ls', dr, e') -> In x (concat ls') -> In x (concat ls).
+  Proof.
+    induction ls as [|l t IH]; intros e ls' dr e' H Hin; cbn [compact_ls] in H.
+    - inversion H; subst. exact Hin.
+    - destruct (k <=? Z.of_nat (length l)).
+      + destruct (compact_one K l e) as [[prom d] e1] eqn:Ec.
+        destruct t as [|l1 t']; inversion H; subst; clear H; cbn [concat app] in *;
+          rewrite ?app_nil_r, ?in_app_iff in *.
+        * eapply compact_one_In; eauto.
+        * destruct Hin as [[Hin|Hin]|Hin]; auto. left. eapply compact_one_In; eauto.
+      + destruct (compact_ls K k t e) as [[t' d] e1] eqn:Ec. inversion H; subst; clear H.
+        cbn [concat] in *. rewrite in_app_iff in *. destruct Hin as [Hin|Hin]; [auto|right; eapply IH; eauto].
+  Qed.
+
+  Lemma run_compactions_In s e x :
+    In x (concat (d_levels (fst (run_compactions K s e)))) -> In x (concat (d_levels s)).
+  Proof.
+    unfold run_compactions. rewrite while_pow_fuel.
+    apply (while_fuel_inv _ over (compact K)
+             (fun se => In x (concat (d_levels (fst se))) -> In x (concat (d_levels s)))); [|cbn [fst]; auto].
+    intros [s1 e1] H _ Hin. apply H. cbn [fst] in *. unfold compact in Hin.
+    destruct (compact_ls K (d_k s1) (d_levels s1) e1) as [[ls dr] e2] eqn:E. cbn [fst d_levels] in Hin.
+    eapply compact_ls_In; eauto.
+  Qed.
+
+  Lemma push0_In p ls x : In x (concat (push0 p ls)) -> In x (concat ls) \/ x = p.
+  Proof.
+    destruct ls as [|l t]; cbn [push0 concat]; [simpl; tauto|]. rewrite !in_app_iff. cbn [In].
+    intros [[H|[H|[]]]|H]; auto.
+  Qed.
+
+  Lemma zip_app_In x : forall a b, In x (concat (zip_app a b)) -> In x (concat a) \/ In x (concat b).
+  Proof.
+    induction a as [|la ta IH]; intros [|lb tb]; cbn [zip_app concat]; rewrite ?in_app_iff; try tauto.
+    intros [[H|H]|H]; auto. destruct (IH tb H); auto.
+  Qed.
+
+  Theorem retained_subset : forall h, valid h -> forall x, In x (concat (d_levels (eval K h))) -> In x (inputs K h).
+  Proof.
+    induction h as [k dim|h IH p e|h1 IH1 h2 IH2 e]; cbn [valid eval inputs].
+    - intros _ x H. exact H.
+    - intros Hv x Hin. specialize (IH Hv).
+      unfold ds_update in *. destruct (Z.of_nat (length p) =? d_dim (eval K h)); [|auto].
+      pose proof (run_compactions_In (eval K h) e x) as Hrc.
+      destruct (run_compactions K (eval K h) e) as [s1 e1]. cbn [fst d_levels] in *.
+      apply push0_In in Hin. rewrite in_app_iff. cbn [In]. destruct Hin as [Hin| ->]; auto.
+    - intros [Hv1 Hv2] x Hin. specialize (IH1 Hv1). specialize (IH2 Hv2).
+      unfold ds_merge in *. destruct (d_n (eval K h2) =? 0).
+      + rewrite in_app_iff. auto.
+      + destruct (negb (d_dim (eval K h2) =? d_dim (eval K h1))); [auto|].
+        match type of Hin with context [run_compactions K ?m e] =>
+          pose proof (run_compactions_In m e x) as Hrc; destruct (run_compactions K m e) as [s1 e1] end.
+        cbn [fst d_levels] in *. apply Hrc in Hin. apply zip_app_In in Hin. rewrite in_app_iff.
+        destruct Hin as [Hin|Hin]; [left; now apply IH1|right; now apply IH2].
+  Qed.
+
+  Theorem inputs_dimension : forall h, valid h ->
+    Forall (fun p => Z.of_nat (length p) = d_dim (eval K h)) (inputs K h).
+  Proof.
+    induction h as [k dim|h IH p e|h1 IH1 h2 IH2 e]; cbn [valid eval inputs].
+    - constructor.
+    - intros Hv. specialize (IH Hv).
+      destruct (ds_update K (eval K h) p e) as [[s' e']|] eqn:E; [|exact IH].
+      apply ds_update_spec in E; [|apply eval_inv, Hv]. destruct E as (Hp & _ & _ & _ & Hd & _).
+      rewrite Hd. apply Forall_app. split; [exact IH|]. constructor; [exact Hp|constructor].
+    - intros [Hv1 Hv2]. specialize (IH1 Hv1). specialize (IH2 Hv2).
+      pose proof (n_exact K h2 Hv2) as Hn2.
+      destruct (ds_merge K (eval K h1) (eval K h2) e) as [[s' e']|] eqn:E; [|exact IH1].
+      apply ds_merge_spec in E; [|apply eval_inv, Hv1|apply eval_inv, Hv2].
+      destruct E as (_ & _ & Hd & _ & _ & Hz & Hnz). rewrite Hd.
+      apply Forall_app. split; [exact IH1|].
+      destruct (Z.eq_dec (d_n (eval K h2)) 0) as [E0|E0].
+      + destruct (inputs K h2); [constructor|simpl in Hn2; lia].
+      + rewrite <- (Hnz E0). exact IH2.
+  Qed.
+End Subset.
+
+Lemma retained_points_are_inputs (K : point -> point -> Z) : forall h, valid h ->
+  forall p w, In (p, w) (ds_iterate (eval K h)) -> In p (inputs K h) /\ Z.of_nat (length p) = d_dim (eval K h).
+Proof.
+  intros h Hv p w Hin. apply iteration_weights in Hin. destruct Hin as (lv & Hlt & _ & Hp).
+  assert (Hi : In p (inputs K h)).
+  { apply (retained_subset K h Hv). apply in_concat. exists (nth lv (d_levels (eval K h)) []). split; [now apply nth_In|exact Hp]. }
+  split; [exact Hi|]. pose proof (inputs_dimension K h Hv) as Hd. rewrite Forall_forall in Hd. now apply Hd.
+Qed.
